@@ -27,3 +27,4 @@ run stack-prealloc-reset-drops-large-map-queue-regrow-reader-buffer.diff C07 C10
 run heapq-cached-less-predicate.diff C05 C06 C08
 run cache-clear-callbacks-after-unlock.diff C08 C09
 run cache-remove-callback-after-unlock.diff C08 C09
+run shell-reset-discards-buffered-input.diff C15 C16
